@@ -41,8 +41,8 @@ PROFILE = {
     'max_pods': 3, 'max_racks': 3,
     'weights': {'app': 10, 'down': 4, 'up': 3, 'rmsrv': 3, 'readd': 3,
                 'rm': 4, 'strat': 3, 'srv': 2, 'freeze': 2, 'unfreeze': 3,
-                'freezework': 3},
-    'force': ['rm', 'freezework'],
+                'freezework': 3, 'orphanrm': 3, 'idg': 2},
+    'force': ['rm', 'freezework', 'orphanrm'],
     'max_ops': 30,
 }
 E2_PROFILE = {
